@@ -528,5 +528,4 @@ def m_live_dump(d):
 MATCHERS = {
     "c08_pickle_interval": m_pickle_interval,
     "c08_ac_disjoint_chunk": m_ac_disjoint_chunk,
-    "c08_ac_no_bounds": m_ac_no_bounds,
 }
